@@ -61,34 +61,34 @@ private theorem addStepPath_paths (e e' : Engine) (path : P) (deps : Option (Lis
     obtain ⟨g, _, rfl⟩ := h
     exact ⟨rfl, fun q => mem_addKey _ _ _⟩
 
-private theorem addProcessPath_paths (e e' : Engine) (path : P) (isStep : Bool)
-    (h : addProcessPath e path isStep = some e') :
+private theorem addProcessPath_paths (fl : List (P × List P)) (e e' : Engine) (path : P) (isStep : Bool)
+    (h : addProcessPath fl e path isStep = some e') :
     (∀ q, q ∈ e'.procPaths ↔ q ∈ e.procPaths ∨ (isStep = false ∧ q = path)) ∧
     (∀ q, q ∈ e'.stepPaths ↔ q ∈ e.stepPaths ∨ (isStep = true ∧ q = path)) := by
   unfold addProcessPath at h
   cases isStep with
   | true =>
     simp only [if_true] at h
-    have := addStepPath_paths e e' path none h
+    have := addStepPath_paths e e' path _ h
     refine ⟨fun q => by rw [this.1]; simp, fun q => by rw [this.2 q]; simp⟩
   | false =>
     simp at h
     subst h
     exact ⟨fun q => by simp [mem_addKey], fun q => by simp⟩
 
-private theorem fold_procs (rp : List (P × Bool)) (e e' : Engine)
-    (h : rp.foldlM (fun e pb => addProcessPath e pb.1 pb.2) e = some e') :
+private theorem fold_procs (fl : List (P × List P)) (rp : List (P × Bool)) (e e' : Engine)
+    (h : rp.foldlM (fun e pb => addProcessPath fl e pb.1 pb.2) e = some e') :
     (∀ q, q ∈ e'.procPaths ↔ q ∈ e.procPaths ∨ (q, false) ∈ rp) ∧
     (∀ q, q ∈ e'.stepPaths ↔ q ∈ e.stepPaths ∨ (q, true) ∈ rp) := by
   induction rp generalizing e with
   | nil => simp [List.foldlM] at h; subst h; simp
   | cons pb rest ih =>
     simp only [List.foldlM_cons, Option.bind_eq_bind] at h
-    cases h1 : addProcessPath e pb.1 pb.2 with
+    cases h1 : addProcessPath fl e pb.1 pb.2 with
     | none => simp [h1] at h
     | some e1 =>
       simp only [h1, Option.bind_some] at h
-      have hs := addProcessPath_paths e e1 pb.1 pb.2 h1
+      have hs := addProcessPath_paths fl e e1 pb.1 pb.2 h1
       have ht := ih e1 h
       constructor
       · intro q; rw [ht.1 q, hs.1 q]
@@ -178,7 +178,7 @@ theorem bookkeeping_step (h : Hier) (e e' : Engine) (r : Report)
     ProcInv (applyHier h r) e' ∧ StepInv (applyHier h r) e' := by
   unfold applyReport at hr
   simp only [Option.bind_eq_bind, Option.pure_def] at hr
-  cases h1 : r.procs.foldlM (fun e pb => addProcessPath e pb.1 pb.2) e with
+  cases h1 : r.procs.foldlM (fun e pb => addProcessPath r.procFlow e pb.1 pb.2) e with
   | none => simp [h1] at hr
   | some e1 =>
     simp only [h1, Option.bind_some] at hr
@@ -187,7 +187,7 @@ theorem bookkeeping_step (h : Hier) (e e' : Engine) (r : Report)
     | some e2 =>
       simp only [h2, Option.bind_some, Option.some.injEq] at hr
       subst hr
-      have f1 := fold_procs r.procs e e1 h1
+      have f1 := fold_procs r.procFlow r.procs e e1 h1
       have f2 := fold_steps r.steps e1 e2 h2
       have f3 := fold_delete r.deletions e2
       constructor
@@ -213,7 +213,8 @@ theorem bookkeeping_step (h : Hier) (e e' : Engine) (r : Report)
         constructor
         · rintro ⟨(⟨d, h1⟩ | h1) | ⟨d, h1⟩, hd⟩
           · exact ⟨d, Or.inl h1, fun x hx => by simpa using hd x hx⟩
-          · exact ⟨none, Or.inr (Or.inl ⟨s, true, h1, rfl, by simp⟩), fun x hx => by simpa using hd x hx⟩
+          · exact ⟨flowOf r.procFlow s, Or.inr (Or.inl ⟨s, true, h1, rfl, by simp⟩),
+              fun x hx => by simpa using hd x hx⟩
           · exact ⟨d, Or.inr (Or.inr ⟨s, d, h1, rfl, rfl⟩), fun x hx => by simpa using hd x hx⟩
         · rintro ⟨d, h1 | h1 | h1, hd⟩
           · exact ⟨Or.inl (Or.inl ⟨d, h1⟩), fun x hx => by simpa using hd x hx⟩
@@ -260,7 +261,7 @@ theorem deleted_not_listed (e e' : Engine) (r : Report) (hr : applyReport e r = 
     q ∉ e'.procPaths ∧ q ∉ e'.stepPaths := by
   unfold applyReport at hr
   simp only [Option.bind_eq_bind, Option.pure_def] at hr
-  cases h1 : r.procs.foldlM (fun e pb => addProcessPath e pb.1 pb.2) e with
+  cases h1 : r.procs.foldlM (fun e pb => addProcessPath r.procFlow e pb.1 pb.2) e with
   | none => simp [h1] at hr
   | some e1 =>
     simp only [h1, Option.bind_some] at hr
